@@ -30,6 +30,7 @@ META = dict(
     technique="walk-order / take-iff / pairing rules over the AST, decision tables of the guards, effects (read/write sets)",
 )
 META["text"] += " (R7 = C06.R4) the consumer of the threshold keeps, position by position, exactly the cards whose sample number is within the contest's threshold."
+META["text"] += ' R1 finds the walk sequence by role and requires it to be all indices in ascending sample-number order (a partial sort is refuted); the reported sample may be the sorted set of selected cards; R6 also: the drawn sample is enumerated as given (order-preserving copies accepted).'
 
 
 def card_expr(fn):
